@@ -109,3 +109,107 @@ func VerifEncode(v *VerifRec) []byte {
 	wrapRecord(verifToRecord(v)).append(&buf, true)
 	return buf.Bytes()
 }
+
+// ---- hint files (C14) ----
+
+type VerifHintItem struct {
+	Keyhash uint64
+	Chunk   int
+	Offset  uint32
+	Ver     int32
+	Vhash   uint16
+	Key     string
+}
+
+func verifToHint(v VerifHintItem) *HintItem {
+	return newHintItem(v.Keyhash, v.Ver, v.Vhash, Position{v.Chunk, v.Offset}, v.Key)
+}
+
+func verifFromHint(it *HintItem) VerifHintItem {
+	return VerifHintItem{it.Keyhash, it.Pos.ChunkID, it.Pos.Offset, it.Ver, it.Vhash, it.Key}
+}
+
+// VerifHintWrite writes the items in the given order with the hint file writer.
+func VerifHintWrite(path string, items []VerifHintItem, datasize uint32) error {
+	w, err := newHintFileWriter(path, datasize, 1<<16)
+	if err != nil {
+		return err
+	}
+	for _, v := range items {
+		if err = w.writeItem(verifToHint(v)); err != nil {
+			return err
+		}
+	}
+	return w.close()
+}
+
+// VerifHintBufferDump feeds the items to a HintBuffer (as hintMgr.setItem does) and dumps it.
+// ok[i] reports whether Set accepted item i.
+func VerifHintBufferDump(path string, items []VerifHintItem, recSize uint32) (ok []bool, err error) {
+	buf := NewHintBuffer()
+	for _, v := range items {
+		ok = append(ok, buf.Set(verifToHint(v), recSize))
+	}
+	_, err = buf.Dump(path)
+	return
+}
+
+func VerifHintReadAll(path string, chunkID int) (items []VerifHintItem, datasize uint32, numKey int, err error) {
+	r := newHintFileReader(path, chunkID, 4096)
+	if err = r.open(); err != nil {
+		return
+	}
+	defer r.close()
+	datasize, numKey = r.datasize, r.numKey
+	for {
+		it, e := r.next()
+		if e != nil {
+			err = e
+			return
+		}
+		if it == nil {
+			return
+		}
+		items = append(items, verifFromHint(it))
+	}
+}
+
+// VerifHintGet looks one (keyhash, key) up through the sparse index, as bucket.get does.
+func VerifHintGet(path string, keyhash uint64, key string) (*VerifHintItem, error) {
+	idx, err := loadHintIndex(path)
+	if err != nil {
+		return nil, err
+	}
+	it, err := idx.get(keyhash, key)
+	if err != nil || it == nil {
+		return nil, err
+	}
+	v := verifFromHint(it)
+	return &v, nil
+}
+
+func VerifHintIndexLen(path string) (int, error) {
+	idx, err := loadHintIndex(path)
+	if err != nil {
+		return 0, err
+	}
+	return len(idx.index), nil
+}
+
+// VerifHintMerge merges the source hint files into dst; returns the collision table entries.
+func VerifHintMerge(srcs []string, chunkIDs []int, dst string, forGC bool) (coll []VerifHintItem, err error) {
+	readers := make([]*hintFileReader, len(srcs))
+	for i := range srcs {
+		readers[i] = newHintFileReader(srcs[i], chunkIDs[i], 4096)
+	}
+	ct := newCollisionTable()
+	state := 0
+	_, err = merge(readers, dst, ct, &state, forGC)
+	for _, m := range ct.Items {
+		for _, it := range m {
+			it2 := it
+			coll = append(coll, verifFromHint(&it2))
+		}
+	}
+	return
+}
